@@ -731,7 +731,10 @@ class Server():
         if ca in self.reps:
             self.reps[ca].close()  # this signals response handler
             if ca in self.servant.ixes:
-                self.servant.ixes[ca].serviceSends()  #  send final bytes to socket
+                try:
+                    self.servant.ixes[ca].serviceSends()  #  send final bytes to socket
+                except OSError as ex:  # socket broken so nothing more to send
+                    pass
             del self.reps[ca]
         if ca in self.servant.ixes:  # not already removed by servant on socket error
             self.servant.removeIx(ca)
